@@ -545,9 +545,22 @@ def method_selector_rule(ctx, rule):
           and ('c', 'self.dynamic_registration', False) in facts[n.id]]
   ok = bool(rets)
   why = 'no static-branch return'
+  base_names = {u(a.targets[0]) for a in walk_local(f.node) if isinstance(a, ast.Assign) and len(a.targets) == 1 and isinstance(a.targets[0], ast.Name)
+                and isinstance(a.value, ast.Call) and u(a.value.func) == '_REGISTRY.minimal_selector'}
   for r in rets:
     v = r.ast.value
     name = v.id if isinstance(v, ast.Name) else None
+    if name is None:
+      # returned directly: the registry's answer itself, or the widened form under "a method whose minimal selector is a bare name"
+      if isinstance(v, ast.Call) and u(v.func) == '_REGISTRY.minimal_selector':
+        continue
+      fs = facts[r.id]
+      cond = ('c', 'configurable_.is_method', True) in fs and any(('c', "'.' in %s" % b_, False) in fs for b_ in base_names)
+      if not cond:
+        ok = False
+        why = 'the selector `%s` is returned without the condition "a method whose minimal selector is a bare name"' % u(v) if base_names else \
+            'the returned selector `%s` does not come from _REGISTRY.minimal_selector' % u(v)
+      continue
     defs = [a for a in walk_local(f.node) if isinstance(a, ast.Assign) and name and u(a.targets[0]) == name]
     base = [a for a in defs if isinstance(a.value, ast.Call) and u(a.value.func) == '_REGISTRY.minimal_selector']
     widen = [a for a in defs if a not in base]
